@@ -14,6 +14,7 @@ for f in ('patch.diff', 'demo.cpp', 'meta.json'):
 meta = json.load(open(os.path.join(dst, 'meta.json')))
 def sh(cmd, **kw): return subprocess.run(cmd, shell=True, stdout=subprocess.PIPE, stderr=subprocess.STDOUT, text=True, **kw)
 sh('git -C %s checkout -- .' % wt)
+sh('git -C %s checkout -q --detach $(git -C /repo rev-parse HEAD)' % wt)   # seeds are applied on top of the current /repo HEAD
 def demo():
     extra = ' '.join(os.path.join(wt, x) for x in re.findall(r'(tlx/[A-Za-z0-9_/]+\.cpp)', meta.get('demo_cmd', '')))
     r = sh('g++ -std=c++17 -O1 -I%s %s/demo.cpp %s -pthread -o /tmp/seeddemo_%s && /tmp/seeddemo_%s' % (wt, dst, extra, o.prop, o.prop), timeout=600)
